@@ -37,7 +37,8 @@ EXPLANATION = (
     " (R12) the closure passed to the one-sided Newton iteration as derivative is d/dx of the closure passed as function (power cone; generalised power cone term by term over the fold)."
     " (R13) third-order correction of the exponential and power cone: higher_correction is replayed with the state of eta, the scratch matrix and every local tracked statement by statement; eta is a bilinear form in (u, v) whose 27 coefficients equal 1/2 d^3 f*/dz_i dz_j dz_k exactly."
     " (R14) the sign tests that decide membership of the power and exponential cone evaluate the defining expressions of K and K* (the dual power cone test is the same power product as the dual barrier)."
-    " (R15) primal-dual scaling: the stored Hs is s s'/<s,z> + ds ds'/<ds,dz> + t a a' with ds = s + mu st, dz = z + mu zt, a = normalised z x zt, and - given the Euler identities of R4 - <ds,z> = <s,dz> = <a,z> = <a,dz> = 0, so Hs z = s and Hs zt = st identically (positive definiteness not decided).")
+    " (R15) primal-dual scaling: the stored Hs is s s'/<s,z> + ds ds'/<ds,dz> + t a a' with ds = s + mu st, dz = z + mu zt, a = normalised z x zt, and - given the Euler identities of R4 - <ds,z> = <s,dz> = <a,z> = <a,dz> = 0, so Hs z = s and Hs zt = st identically (positive definiteness not decided)."
+    ' (R16) the constants of unit_initialization (exp, pow; pow at three generic exponents) satisfy s = -grad f*(z) for the gradient polynomial of R11 (evaluated from the source text, tolerance 1e-6: the literals of the exponential cone are accurate to 4e-9 only); (R17) the 3x3 Cholesky used by higher_correction rejects a pivot iff it is <= 0 exactly, and the correction is zeroed iff it failed.')
 ASSUMPTIONS = ['rustc MIR construction and trait resolution are correct',
                'R4: identities over the reals; log(a b) = log a + log b and omega + log omega = x for omega = wright_omega(x)']
 
@@ -1485,12 +1486,18 @@ def primal_dual_secant(rep, F, E, tag):
                     if v is not None:
                         assigns.setdefault(e[1], set()).add(v)
         one = lambda d, k: (list(d[k])[0] if k in d and len(d[k]) == 1 else None)
-        want_tmpl = {
-            'var:δs[var:i]': {'add(arg2[var:i], mul(var:μ, var:st[var:i]))', 'add(mul(var:μ, var:st[var:i]), arg2[var:i])'},
-            'var:δz[var:i]': {'add(arg3[var:i], mul(var:μ, var:zt[var:i]))', 'add(mul(var:μ, var:zt[var:i]), arg3[var:i])'},
-        }
-        for k, w in want_tmpl.items():
-            R.check(one(stores, k) in w, 'template|%s%s' % (k[4:6], tag), 'use_primal_dual_scaling defines %s as %s, expected %s' % (k, stores.get(k), sorted(w)[0]), f0.loc())
+        # delta_s[i] = s[i] + mu st[i], delta_z[i] = z[i] + mu zt[i]: compared as polynomials over free symbols (any arrangement of the sum / product)
+        for k, base, tv in (('var:δs[var:i]', 'arg2', 'var:st'), ('var:δz[var:i]', 'arg3', 'var:zt')):
+            tm = one(stores, k)
+            ok = False
+            if tm is not None:
+                try:
+                    A_ = lambda n_: RatF(P_atom(n_))
+                    got = _txt_eval(tm.replace('var:i', '0_usize'), {'var:μ': A_('mu')}, {base: [A_('b0')] * 3, tv: [A_('t0')] * 3})
+                    ok = (got + (A_('b0') + A_('mu') * A_('t0')) * RatF(P_const(-1))).is_zero()
+                except _NoDerivative:
+                    ok = False
+            R.check(ok, 'template|%s%s' % (k[4:6], tag), 'use_primal_dual_scaling defines %s as %s, expected %s[i] + mu * %s[i]' % (k, stores.get(k), base, tv), f0.loc())
         mu = assigns.get('μ', set())
         dsz = assigns.get('dot_sz', set())
         ddz = assigns.get('dot_δsz', set())
@@ -1562,6 +1569,178 @@ def primal_dual_secant(rep, F, E, tag):
     R.guard(body)
 
 
+def _num_text(t, env, depth=0):
+    """numeric value of a canonical text built from literals, one()/zero(), self.α, +-*/, sqrt and references resolved through env"""
+    import math
+    t = t.strip()
+    if t in env:
+        v = env[t]
+        return _num_text(v, env, depth + 1) if isinstance(v, str) else v
+    m = _re.fullmatch(r'(-?\d+(?:\.\d+)?(?:e-?\d+)?)(f64|f32)?', t)
+    if m:
+        return float(m.group(1))
+    if t == 'one()':
+        return 1.0
+    if t == 'zero()':
+        return 0.0
+    sp = _txt_split(t)
+    if sp is None or depth > 30:
+        raise _NoDerivative('cannot evaluate %s' % t[:60])
+    nm, args = sp
+    nm = last_seg(nm)
+    vals = [_num_text(a, env, depth + 1) for a in args]
+    if nm == 'add':
+        return vals[0] + vals[1]
+    if nm == 'sub':
+        return vals[0] - vals[1]
+    if nm == 'mul':
+        return vals[0] * vals[1]
+    if nm == 'div':
+        return vals[0] / vals[1]
+    if nm == 'neg':
+        return -vals[0]
+    if nm == 'sqrt':
+        return math.sqrt(vals[0])
+    if nm in ('as_T', 'clone'):
+        return vals[0]
+    raise _NoDerivative('cannot evaluate %s' % t[:60])
+
+
+def _num_poly(poly, env, defs, reg, depth=0):
+    """numeric value of a polynomial over coordinate atoms (env), recip atoms (reg) and log / pow atoms (defs)"""
+    import math
+    if depth > 12:
+        raise _NoDerivative('nesting too deep')
+
+    def atom(a):
+        if isinstance(a, str):
+            if a in env:
+                return env[a]
+            raise _NoDerivative('no value for atom %r' % (a,))
+        if a[0] == 'recip' and a in reg:
+            return 1.0 / _num_poly(reg[a], env, defs, reg, depth + 1)
+        if a in defs:
+            kind, args = defs[a]
+            if kind == 'log':
+                return math.log(_num_poly(args[0], env, defs, reg, depth + 1))
+            if kind == 'pow':
+                return _num_poly(args[0], env, defs, reg, depth + 1) ** _num_poly(args[1], env, defs, reg, depth + 1)
+        raise _NoDerivative('no value for atom %r' % (a,))
+    tot = 0.0
+    for m, c in poly.items():
+        v = float(c)
+        for a, e in m:
+            v *= atom(a) ** e
+        tot += v
+    return tot
+
+
+def central_start(rep, F, E, tag):
+    """"the unit starting point is the central point with mu = 1": the constants written by unit_initialization of the exponential and power cone must
+    satisfy s = -grad f*(z) for the gradient that R11 ties to the dual barrier.  The constants (decimal literals for the exponential cone, square roots
+    of 1 + alpha and 2 - alpha for the power cone) are evaluated from the source text - at three generic exponents for the power cone - and inserted into
+    the gradient polynomial; no code of the repository runs."""
+    R = rep.rule('C14.R16', 'unit_initialization of the exponential and power cone writes the central point: s = -grad f*(z), hence <s,z> = 3')
+
+    def body():
+        n = 0
+        for K in ('ExponentialCone', 'PowerCone'):
+            fg = F.one(name='update_dual_grad_H', adt=K)
+            reg, holder = {}, {'defs': {}}
+            Ig = LFSplit(F, E, fg, _diff_atoms('z', holder), reg)
+            holder['I'] = Ig
+            lg = Ig.run({})
+            if len(lg) != 1:
+                raise AnchorError('%s::update_dual_grad_H has %d paths' % (K, len(lg)))
+            st = lg[0][2]
+            g = [st.get('self.grad[%d_usize]' % i) for i in range(3)]
+            if not all(x is not None and x[0] == 'S' for x in g):
+                raise AnchorError('gradient of %s not evaluated' % K)
+            fu = F.one(name='unit_initialization', adt=K)
+            lv = [l for l in Walker(fu, local_stores=True).leaves() if l[1][0] != 'diverge']
+            if not R.check(len(lv) == 1, 'straight-line|%s%s' % (K, tag), '%s::unit_initialization has %d paths' % (K, len(lv)), fu.loc()):
+                continue
+            for alpha in ((0.1, 0.35, 0.8) if K == 'PowerCone' else (None,)):
+                env = {}
+                if alpha is not None:
+                    env['self.α'] = alpha
+                    env['var:α'] = alpha
+                # the values are read in store order: a component copied from the other vector takes the value that vector has then
+                try:
+                    for e in lv[0][2]:
+                        if e[0] == 'store' and _re.fullmatch(r'arg[23]\[\d_usize\]', str(e[1])):
+                            env[str(e[1])] = _num_text(str(e[2]), env)
+                    z = [env['arg2[%d_usize]' % i] for i in range(3)]
+                    s_ = [env['arg3[%d_usize]' % i] for i in range(3)]
+                    pt = {'z0': z[0], 'z1': z[1], 'z2': z[2], 'alpha': alpha}
+                    gv = [_num_poly(g[i][1], pt, holder['defs'], reg) for i in range(3)]
+                except (_NoDerivative, KeyError, ValueError, ZeroDivisionError) as ex:
+                    R.bad('evaluable|%s%s' % (K, tag), '%s::unit_initialization: constants could not be evaluated (%r)' % (K, ex), fu.loc())
+                    break
+                for i in range(3):
+                    n += 1
+                    R.check(abs(s_[i] + gv[i]) <= 1e-6 * max(1.0, abs(s_[i])), 'central|%s|%d%s%s' % (K, i, '' if alpha is None else '|alpha=%s' % alpha, tag),
+                            '%s::unit_initialization: s[%d] = %.12g but -grad f*(z)[%d] = %.12g at the initial z%s: the start is not the central point '
+                            '(mu = 1) of the barrier pair' % (K, i, s_[i], i, -gv[i], '' if alpha is None else ' for alpha = %s' % alpha), fu.loc())
+        R.check(n >= 12, 'count' + tag, 'only %d central-point components checked' % n)
+
+    R.guard(body)
+
+
+def cholesky_scale_free(rep, F, tag):
+    """higher_correction solves H u = ds with an explicit 3x3 Cholesky factorisation and returns eta = 0 when the factorisation reports failure.
+    H*(z) scales like 1/|z|^2, so the failure test must be scale-free: a pivot is rejected iff it is <= 0 exactly.  An absolute threshold (epsilon) zeroes
+    the correction for every dual point of large magnitude although H is positive definite."""
+    R = rep.rule('C14.R17', '3x3 Cholesky used by the third-order correction: a pivot is rejected iff it is <= 0 exactly (no absolute tolerance); success only after all three pivots passed')
+
+    def body():
+        f = F.one(name='cholesky_3x3_explicit_factor')
+        n_true = 0
+        for val, ret, ev, tr in Walker(f, local_stores=True).leaves():
+            if ret[0] == 'diverge':
+                continue
+            tests = []
+            for k, v in val.items():
+                m = _re.fullmatch(r'(le|lt|ge|gt)\((.*)\)', k)
+                if not m:
+                    continue
+                a = split_args(k)
+                op = m.group(1)
+                # orientation: pivot OP zero
+                if a[1] == 'zero()':
+                    piv, rej = a[0], (v == 1) if op in ('le', 'lt') else (v == 0)
+                    strict_ok = op in ('le', 'gt')
+                elif a[0] == 'zero()':
+                    piv, rej = a[1], (v == 1) if op in ('ge', 'gt') else (v == 0)
+                    strict_ok = op in ('ge', 'lt')
+                else:
+                    R.bad('threshold|%d%s' % (len(tests), tag), 'cholesky_3x3_explicit_factor compares a pivot with %s: the test must be against zero exactly '
+                          '(H* scales like 1/|z|^2; an absolute threshold rejects positive definite matrices of small magnitude)' % (a[1] if 'index(arg2' in a[0] or 'sub(' in a[0] else a[0])[:60], f.loc())
+                    continue
+                R.check(strict_ok, 'zero-rejected|%d%s' % (len(tests), tag), 'a zero pivot is accepted (%s): its square root is then divided by' % k[:60], f.loc())
+                tests.append(rej)
+            if ret[0] == 'c' and ret[1] == 1:
+                n_true += 1
+                R.check(len(tests) == 3 and not any(tests), 'success-after-three' + tag, 'the factorisation reports success after %d accepted pivots' % len([t for t in tests if not t]), f.loc())
+            elif ret[0] == 'c' and ret[1] == 0:
+                R.check(bool(tests) and tests[-1] and not any(tests[:-1]), 'failure-iff-rejected' + tag, 'the factorisation reports failure on the path %s' % {k[:40]: v for k, v in val.items()}, f.loc())
+            else:
+                R.bad('returns' + tag, 'unexpected return %s' % (ret,), f.loc())
+        R.check(n_true == 1, 'paths' + tag, '%d success paths' % n_true, f.loc())
+        # and the correction is zeroed only on that failure
+        for K in ('ExponentialCone', 'PowerCone'):
+            h = F.one(name='higher_correction', adt=K)
+            for val, ret, ev, tr in Walker(h, cut_loops=True).leaves():
+                if ret[0] == 'diverge':
+                    continue
+                ok_ = [v for k, v in val.items() if k.startswith('cholesky_3x3_explicit_factor(')]
+                zeroed = ret[0] in ('s', 'c') and not any(e[0] == 'call' and e[1] == 'cholesky_3x3_explicit_solve' for e in ev)
+                R.check(bool(ok_) and zeroed == (ok_[0] == 0), 'zero-iff-failed|%s%s' % (K, tag),
+                        '%s::higher_correction %s the solve although the factorisation %s' % (K, 'skips' if zeroed else 'runs', 'succeeded' if ok_ and ok_[0] else 'failed / was not tested'), h.loc())
+
+    R.guard(body)
+
+
 def run(ctx, rep, tier):
     for cfg in (CONFIGS_THOROUGH if tier == 'thorough' else CONFIGS):
         F = ctx.facts(cfg)
@@ -1580,6 +1759,8 @@ def run(ctx, rep, tier):
         barrier_derivatives(rep, F, E, tag)
         newton_derivative(rep, F, E, tag)
         membership_definitions(rep, F, E, tag)
+        central_start(rep, F, E, tag)
+        cholesky_scale_free(rep, F, tag)
         if cfg == 'default':
             primal_dual_secant(rep, F, E, tag)
         if cfg == 'default':
